@@ -129,6 +129,13 @@ def run(ck):
               "%d Iterator constructions, each dominated by a lock acquisition" % len(its), f.loc())
         for n, (bi, t) in enumerate(sites):
             ck.ob("DEFUSE", f.path, "acquire-on-prefix#%d" % n, ("arg", 3) in f.origins(t["args"][1], deep=True), "the lock is taken on the iterator's prefix", f.loc(bi))
+            # ... the prefix AS REQUESTED, not a key that was meanwhile extended with the rest of a stem (a lock on the padded
+            # path does not cover the other keys under the requested prefix)
+            sh = f.origins(t["args"][1], deep=False)
+            exact = ("arg", 3) in sh and not any(a[0] == "call" for a in sh)
+            ck.ob("DEFUSE", f.path, "acquire-on-the-requested-prefix#%d" % n, exact,
+                  "the locked key is the prefix parameter itself" if exact else
+                  "the locked key is computed (%s), not the requested prefix: keys under the prefix that do not extend it stay unlocked" % sorted(a[1].split("::")[-1] for a in sh if a[0] == "call")[:4], f.loc(bi))
     f = getfn(ck, "sc", E, MT + "delete_iter")
     if f:
         for (bi, t) in f.calls(r"PrefixesMap::delete$"):
